@@ -66,6 +66,8 @@ const (
 type _refKey struct {
 	addr unsafe.Pointer
 	kind reflect.Kind
+	// length of a slice: s[:1] and s[:2] start at the same address but are different lists
+	length int
 }
 
 func refTag(tag byte) bool {
@@ -120,7 +122,10 @@ func (e *Encoder) checkEncodeRefMap(v reflect.Value) (int, bool) {
 		return 0, false
 	}
 
-	key := _refKey{addr, kind}
+	key := _refKey{addr: addr, kind: kind}
+	if kind == reflect.Slice {
+		key.length = tgt.Len()
+	}
 	if index, ok := e.refMap[key]; ok {
 		// fmt.Printf("-----> find ref: %d, %p, %v, %v\n", index, addr, kind, v)
 		return index, true
